@@ -1,6 +1,8 @@
 package hx
 
 import (
+	"strings"
+	"sort"
 	"crypto/sha256"
 	"encoding/hex"
 	"encoding/json"
@@ -111,10 +113,14 @@ func (c16) Run(c *Ctx, i int) CaseResult {
 	// half of the batches go to a gateway with the automatic query-plan cache; there an operation may carry a
 	// persisted-query hash together with its text (hash-only operations are left out: their answer depends on
 	// the cache's history, which a solitary request does not have)
-	var gwOpts []gateway.Option
 	cached := r.Intn(2) == 0
-	if cached {
-		gwOpts = append(gwOpts, gateway.WithAutomaticQueryPlanCache())
+	// every gateway gets a plan cache of its own (one option value would carry one cache, and a plan found there
+	// calls the services of the gateway it was made for)
+	gwOpts := func() []gateway.Option {
+		if cached {
+			return []gateway.Option{gateway.WithAutomaticQueryPlanCache()}
+		}
+		return nil
 	}
 	for j := 0; j < k; j++ {
 		name := fmt.Sprintf("Op%d", j)
@@ -158,6 +164,10 @@ func (c16) Run(c *Ctx, i int) CaseResult {
 			{{"k": "u1"}, {"k": "u3"}},
 			{{}, {"s": true}},
 			{{"k": "u2 s:false"}, {"k": "u2", "s": false}},
+			// numbers that a float64 does not hold: whatever the decoder of one shape of request makes of them, the
+			// decoder of the other must make too
+			{{"k": json.Number("9007199254740993")}, {"k": json.Number("9007199254740992")}},
+			{{"k": json.Number("18446744073709551615"), "s": true}, {"k": json.Number("12345678901234567890")}},
 		}
 		pr := pairs[r.Intn(len(pairs))]
 		a, b := 0, 1+r.Intn(k-1)
@@ -192,8 +202,9 @@ func (c16) Run(c *Ctx, i int) CaseResult {
 	store := GenStore(rand.New(rand.NewSource(5)), false)
 	// single answers
 	singles := make([]string, k)
+	aloneVars := map[string][]string{} // operation name -> what the services were sent for it (query, variables)
 	for j, op := range ops {
-		f, err := NewFed(FixedFed(), store, gwOpts...)
+		f, err := NewFed(FixedFed(), store, gwOpts()...)
 		if err != nil {
 			res.Fails = append(res.Fails, Failure{Channel: "harness", Classifier: "harness-error", What: err.Error()})
 			return res
@@ -207,9 +218,14 @@ func (c16) Run(c *Ctx, i int) CaseResult {
 		var v interface{}
 		json.Unmarshal(rec.Body.Bytes(), &v)
 		singles[j] = Canon(v)
+		for _, svc := range f.Services {
+			for _, call := range svc.Calls() {
+				aloneVars[names[j]] = append(aloneVars[names[j]], outboundKey(call))
+			}
+		}
 	}
 	for _, ord := range orders {
-		f, err := NewFed(FixedFed(), store, gwOpts...)
+		f, err := NewFed(FixedFed(), store, gwOpts()...)
 		if err != nil {
 			res.Fails = append(res.Fails, Failure{Channel: "harness", Classifier: "harness-error", What: err.Error()})
 			return res
@@ -259,6 +275,23 @@ func (c16) Run(c *Ctx, i int) CaseResult {
 				Input: map[string]interface{}{"batch": ops, "order": ord}, Observed: truncate(rec.Body.String(), 500)})
 			return res
 		}
+		batchVars := map[string][]string{}
+		for _, svc := range f.Services {
+			for _, call := range svc.Calls() {
+				batchVars[call.OpName] = append(batchVars[call.OpName], outboundKey(call))
+			}
+		}
+		for n, want := range aloneVars {
+			got := batchVars[n]
+			sort.Strings(want)
+			sort.Strings(got)
+			if fmt.Sprint(want) != fmt.Sprint(got) {
+				res.Fails = append(res.Fails, Failure{Channel: "L0.batch-outbound", Classifier: "unclassified",
+					What:  fmt.Sprintf("what the services are sent for operation %q inside the batch differs from what they are sent when it comes alone: %s", n, diffHint(fmt.Sprint(want), fmt.Sprint(got))),
+					Input: map[string]interface{}{"batch": ops, "order": ord}, Expected: want, Observed: map[string]interface{}{"got": got, "names": fmt.Sprint(keysOfSS(batchVars))}})
+				return res
+			}
+		}
 		for j := range list {
 			if Canon(list[j]) != singles[j] {
 				res.Fails = append(res.Fails, Failure{Channel: "L0.batch", Classifier: "unclassified",
@@ -278,6 +311,33 @@ func (c16) Run(c *Ctx, i int) CaseResult {
 		res.Sample = map[string]interface{}{"batch": ops, "orders": orders}
 	}
 	return res
+}
+
+func keysOfSS(m map[string][]string) []string {
+	var out []string
+	for k, v := range m {
+		out = append(out, fmt.Sprintf("%q:%d", k, len(v)))
+	}
+	sort.Strings(out)
+	return out
+}
+
+// outboundKey: what one service call carried (its text and, canonically, its variables)
+func outboundKey(call *Call) string {
+	q := call.Query
+	// the order in which a step's operation lists its variable definitions is not fixed (and means nothing)
+	if nl := strings.Index(q, "\n"); nl > 0 {
+		head := q[:nl]
+		if a, b := strings.Index(head, "("), strings.LastIndex(head, ")"); a >= 0 && b > a {
+			defs := strings.Split(head[a+1:b], ", $")
+			for i := range defs {
+				defs[i] = strings.TrimPrefix(defs[i], "$")
+			}
+			sort.Strings(defs)
+			q = head[:a+1] + "$" + strings.Join(defs, ", $") + head[b:] + q[nl:]
+		}
+	}
+	return q + " | " + Canon(call.Variables)
 }
 
 func init() { Runners["C16"] = c16{} }
